@@ -28,6 +28,8 @@ class Counter(Persistent):
         LOG.append((old['value'], committed['value'], new['value']))
         if new.get('fail'):
             raise RuntimeError('resolver fails')
+        if new.get('attrerr'):
+            raise AttributeError('resolver touches an attribute a PersistentReference does not have')
         merged = dict(committed)
         merged['value'] = committed['value'] + new['value'] - old['value']
         for k in ('strong', 'weak', 'extra'):
@@ -110,6 +112,18 @@ def search(func, candidate, seed, tier, obligation=''):
             if out != 'conflict' or c0.root()['c'].value != base + 1:
                 return fail({'storage': kind, 'scenario': 'resolver raises'}, 'ConflictError, nothing stored',
                             '%s, value %r' % (out, c0.root()['c'].value), cases)
+            # a resolver failing with AttributeError fails THAT commit only: the class still offers resolution
+            cases += 1
+            out, base, seen = two_writers('b', 1, 1, setup2=lambda o: setattr(o, 'attrerr', True))
+            if out != 'conflict' or c0.root()['b'].value != base + 1:
+                return fail({'storage': kind, 'scenario': 'resolver raises AttributeError'},
+                            'ConflictError, nothing stored', '%s, value %r' % (out, c0.root()['b'].value), cases)
+            cases += 1
+            out, base, seen = two_writers('c', 2, 4)
+            if out != 'committed' or c0.root()['c'].value != base + 6:
+                return fail({'storage': kind, 'scenario': 'a resolver of the class failed with AttributeError in an '
+                             'earlier commit; now two writers add 2 and 4 to another counter of that class'},
+                            'merged value %d stored' % (base + 6), '%s, value %r' % (out, c0.root()['c'].value), cases)
             cases += 1
             out, base, seen = two_writers('p', 1, 2)
             if out != 'conflict' or c0.root()['p'].value != base + 1:
